@@ -130,6 +130,10 @@ pub fn answer(req: &str) -> String {
             Some(src) => asm_answer(&src),
             None => "BADREQ".into(),
         },
+        "opnd" => match rest.trim().split(' ').next().and_then(dec) {
+            Some(src) => asm_answer(&src),
+            None => "BADREQ".into(),
+        },
         "asm2" => {
             let mut it = rest.trim().splitn(3, ' ');
             match (it.next().and_then(dec), it.next().and_then(|x| dec(x.trim()))) {
